@@ -38,6 +38,14 @@ STRATA = {
     "feature_index": (5000, 110000),
     "rc_copy": (3000, 70000),
 }
+# functions that must leave their arguments untouched (vf.core.PurityMonitor; '!' = the object itself is watched too)
+PURE = [
+    "biotite.sequence.annotation:Annotation.__getitem__!",
+    "biotite.sequence.annotation:AnnotatedSequence.__getitem__!",
+    "biotite.sequence.annotation:AnnotatedSequence.reverse_complement!",
+    "biotite.sequence.annotation:AnnotatedSequence.__eq__!",
+    "biotite.sequence.annotation:Annotation.__eq__!",
+]
 REQUIRED_ORACLES = [
     "coverage_vs_model", "cut_flags", "window", "slice_accepted", "source_unchanged",
     "feature_index_bio_order", "set_then_get", "set_frame", "rc_twice", "copy_equal", "copy_independent",
